@@ -120,6 +120,17 @@ def run(tier, seed, replay=None):
             r = rc.compile_run(rp['program'])
             print('replay: compiles=%s errors=%s stdout=%s' % (r['ok'], r['errors'][:3], r.get('stdout', '')[:300]))
         return 0, dict(evaluations=1, distinct_nontrivial=0, obligations=len(gate['theorems']), discharged=len(gate['theorems']), checker_cmd='replay', trusted_base=[]), 0
+    cases, stats, nontrivial, violations = core(rng, n)
+    return finish('C17', tier, seed, gate, cases, stats, nontrivial, violations, set(),
+                  rule=RULE,
+                  samples=[dict(invocation=invocation(c)[:500], probes=c.probes[:3]) for c in cases[:3]],
+                  extra=dict(programs=stats['programs']))
+
+
+RULE = 'generated inherent-mode invocations over local generic types (type / lifetime+type+const / const-before-type / two type parameters / tuple argument), 1-2 families for different const arguments or a generic const parameter, random parameter spelling, declaration order and bound placement; per case: shadow-trait program, a positive program reading pub items from outside and the private item from inside the module, negative programs (item of a probe matching no block; private item from outside) that must not compile; non-trivial = distinct accepted invocation with an implemented probe'
+
+
+def core(rng, n):
     cases = [gen(rng) for _ in range(n)]
     corpus_violations = []
     import os
@@ -193,7 +204,4 @@ def run(tier, seed, replay=None):
             if not (set(codes) & expected) and not any('proc macro' in e for e in r['errors']):
                 # compiled program fails for another reason: leave to the positive program's verdict
                 pass
-    return finish('C17', tier, seed, gate, cases, stats, nontrivial, violations, set(),
-                  rule='generated inherent-mode invocations over local generic types (type / lifetime+type+const / const-before-type / two type parameters / tuple argument), 1-2 families for different const arguments or a generic const parameter, random parameter spelling, declaration order and bound placement; per case: shadow-trait program, a positive program reading pub items from outside and the private item from inside the module, negative programs (item of a probe matching no block; private item from outside) that must not compile; non-trivial = distinct accepted invocation with an implemented probe',
-                  samples=[dict(invocation=invocation(c)[:500], probes=c.probes[:3]) for c in cases[:3]],
-                  extra=dict(programs=stats['programs']))
+    return cases, stats, nontrivial, violations
